@@ -24,9 +24,11 @@ META = {
                   "sub-range reads are compared with the model and with the reference slice.",
     "level_note": "partial: proved = range arithmetic and range resolution over abstract byte lists; not modelled = network fan-out, "
                   "timeouts, retries over several EC rules, header selection and part recovery logic (covered only by the differential "
-                  "tie; EC decoding itself is C21). Per-child arithmetic is modelled on unbounded N: the Go code computes it on uint64 after "
-                  "the bounds check C23_precheck_u64 / Resolve, all intermediate values are then <= payload size < 2^64. Request traces "
-                  "of EC reads with missing parts are not predicted by the model (bytes and status only). Storage below the service is a fake "
+                  "tie; EC decoding itself is C21; the byte ranges cut out of recovered parts are checked by the reference tie only). Per-child arithmetic is modelled on unbounded N: the Go code computes it on uint64 after "
+                  "the bounds check C23_precheck_u64 / Resolve, all intermediate values are then <= payload size < 2^64. For ranged "
+                  "EC reads with unavailable parts the check file predicts the header stream and the range reads issued before the first "
+                  "unavailable part exactly, and requires the recovery reads to be distinct stored parts other than the failed one with at "
+                  "least k complete (their exact set is a race in the code); whole GETs with missing parts: bytes and status only. Storage below the service is a fake "
                   "(local-only, ranges answered with the real PayloadRange.Resolve). Four defects found by this check were repaired in "
                   "/repo (see known_findings.txt: a6de409, 54292ce, 0d0d3a9, f073f78); the model is of the repaired code.",
     "trusted_base": ["Coq 8.16.1 kernel, vm_compute", "models Assemble/Range.v hand-written, tied by differential check",
@@ -39,7 +41,7 @@ META = {
 PRELUDE = ("From NV Require Import Assemble.Range Assemble.RangeCheck.\n"
            "From Coq Require Import NArith List. Import ListNotations.\nLocal Open Scope N_scope.\n")
 KIND = {"whole": 0, "split": 1, "ec": 2}
-STATUS = {"ok": 0, "oor": 1, "err": 2}
+STATUS = {"ok": 0, "oor": 1, "err": 2, "panic": 3}
 
 
 def res_lit(r):
@@ -50,9 +52,10 @@ def res_lit(r):
 
 
 def case_lit(c):
-    return "(%d%%nat,%d%%nat,%s,%d,%s,%d,%d%%nat,[%s])" % (
+    return "(%d%%nat,%d%%nat,%s,%d,%s,%d,%d%%nat,[%s]%%nat,[%s],[%s])" % (
         KIND[c["kind"]], c["ver"], vlib.coq_bool(c["link"]), c["len"], "[" + ";".join(map(str, c["sizes"])) + "]",
-        c["k"], len(c["missing"]), ";\n".join(res_lit(r) for r in c["results"]))
+        c["k"], c["m"], ";".join(map(str, c["missing"])), ";".join("(%d%%nat,%d)" % (i, n) for i, n in (c.get("flaky") or [])),
+        ";\n".join(res_lit(r) for r in c["results"]))
 
 
 def ref_ok(r):
@@ -84,7 +87,7 @@ def run(ctx):
     if not model:
         ctx.tie(False)
     else:
-        nch = 8 if ctx.tier == "quick" else 16
+        nch = 12 if ctx.tier == "quick" else 16
         per = max(1, (len(cases) + nch - 1) // nch)
         jobs, offs = [], []
         for off in range(0, len(cases), per):
@@ -102,22 +105,35 @@ def run(ctx):
     for (i, j) in sorted(set(bad_ref) | bad_model, key=lambda ij: (len(cases[ij[0]]["sizes"]), cases[ij[0]]["len"], ij))[:10]:
         c, r = cases[i], cases[i]["results"][j]
         ctx.violation({"seed": ctx.seed, "tier": ctx.tier,
-                       "object": {k: c[k] for k in ("kind", "ver", "link", "len", "limit", "sizes", "k", "m", "missing")},
+                       "object": {k: c.get(k) for k in ("kind", "ver", "link", "len", "limit", "sizes", "k", "m", "missing", "flaky")},
                        "request": r["req"], "impl": {k: r[k] for k in ("status", "got_len", "bytes_ok", "hdr_ok", "reads")},
                        "reference": {"out_of_range": r["ref_oor"], "off": r["ref_off"], "len": r["ref_len"]},
                        "disagrees_with": [w for w, s in (("reference (original bytes slice / out-of-range iff unsatisfiable)", set(bad_ref)),
                                                          ("model Assemble/Range.v (status, length, child sub-range reads)", bad_model)) if (i, j) in s]})
     allres = [(c, r) for c in cases for r in c["results"]]
-    keys = {(c["kind"], c["ver"], c["link"], c["len"], tuple(c["sizes"][:3]), c["k"], tuple(c["missing"]), r["req"]["api"], r["req"]["mode"],
+
+    def ec_class(c, r):
+        """where a satisfiable ranged EC read stands w.r.t. the recovery branch"""
+        per = c["sizes"][0] if c["sizes"] else 0
+        if c["kind"] != "ec" or r["req"]["mode"] == 0 or r["ref_oor"] or not per or not r["ref_len"]:
+            return None
+        a, b = r["ref_off"] // per, (r["ref_off"] + r["ref_len"] - 1) // per
+        lost = sorted(set(c["missing"]) | {i for i, n in (c.get("flaky") or []) if i != 0})
+        inr = [i for i in lost if a <= i <= b]
+        return "%s/%s/%s" % ("inside" if r["ref_off"] % per else "aligned", "1part" if a == b else "multi",
+                             "none-lost" if not inr else "first-lost" if inr[0] == a else "later-lost")
+    keys = {(c["kind"], c["ver"], c["link"], c["len"], tuple(c["sizes"][:3]), c["k"], tuple(c["missing"]), json.dumps(c.get("flaky")), r["req"]["api"], r["req"]["mode"],
              r["req"]["first"], r["req"]["second"]) for c, r in allres if c["kind"] != "whole" and r["req"]["mode"] != 0 and not r["ref_oor"]}
     ctx.cov.update({
         "evaluations": len(allres),
         "distinct_nontrivial": len(keys),
         "rule": "objects: payloads cut by the real SDK slicer with limit 64..4096 into 2..24 children (exact multiples, limit+1, random), stored as "
                 "V1/V2 chain with/without link object; EC objects k=1..6, m=1..3 with 0..m random parts removed (incl. empty payload and payloads "
-                "shorter than k). requests per object: whole GET + ranges in all modes (offset/length via Get and GetRange, bounds, from, suffix) "
+                "shorter than k); plus, for rules 2/1, 3/2, 4/2 (quick; 10 rules up to 8/3 in the thorough tier), every single part removed, every data part with a range stream "
+                "breaking after n bytes, and pairs of losses, each with ranges for every (first part, last part) pair starting strictly inside "
+                "the first part (recovery branch: hist_ec_recovery). requests per object: whole GET + ranges in all modes (offset/length via Get and GetRange, bounds, from, suffix) "
                 "with offsets at child/part boundaries +-2, 0, len, random, and hostile near-2^64 values. Non-trivial = satisfiable range request "
-                "on a split or EC object; distinct by (layout, sizes, missing parts, api, mode, first, second).",
+                "on a split or EC object; distinct by (layout, sizes, missing and flaky parts, api, mode, first, second).",
         "samples": [{"object": {k: c[k] for k in ("kind", "ver", "link", "len", "sizes", "k", "m", "missing")}, "result": r}
                     for c, r in allres if c["kind"] != "whole" and r["req"]["mode"] == 2 and len(c["sizes"]) <= 4][:3],
         "traces_validated_against_impl": len(allres),
@@ -126,5 +142,8 @@ def run(ctx):
         "hist_status": hist(r["status"] for c, r in allres),
         "hist_children": hist(min(len(c["sizes"]), 25) for c in cases if c["kind"] == "split"),
         "hist_ec_missing": hist(len(c["missing"]) for c in cases if c["kind"] == "ec"),
+        "hist_ec_recovery": hist(x for x in (ec_class(c, r) for c, r in allres) if x),
+        "hist_ec_flaky": hist(len(c.get("flaky") or []) for c in cases if c["kind"] == "ec"),
+        "hist_ec_rule": hist("%d/%d" % (c["k"], c["m"]) for c in cases if c["kind"] == "ec"),
         "hist_ec_part0_missing": hist(0 in c["missing"] for c in cases if c["kind"] == "ec"),
     })
